@@ -20,9 +20,12 @@ import (
 	"k8s.io/client-go/kubernetes/fake"
 	k8stesting "k8s.io/client-go/testing"
 
+	networking "istio.io/api/networking/v1alpha3"
 	"istio.io/istio/pilot/pkg/features"
 	"istio.io/istio/pilot/pkg/model"
 	v3 "istio.io/istio/pilot/pkg/xds/v3"
+	"istio.io/istio/pkg/config"
+	"istio.io/istio/pkg/config/schema/gvk"
 	kubelib "istio.io/istio/pkg/kube"
 	"istio.io/istio/pkg/security"
 	"verif/sim/engine"
@@ -42,7 +45,7 @@ type c11Party struct {
 	ns, sa   string   // claimed in node metadata
 	ids      []string // credential identities (nil = unauthenticated)
 	tls      bool
-	matching bool // the claim matches one of the credential identities
+	matching bool   // the claim matches one of the credential identities
 	verified string // namespace/sa the credential proves (when matching)
 }
 
@@ -55,8 +58,8 @@ func runC11(t *testing.T, r *engine.Run) {
 
 	// ---- SubjectAccessReview stub
 	var sarMu sync.Mutex
-	sarPolicy := map[string]string{} // user -> allow | deny | error (what the stub answers next)
-	sarLast := map[string]string{}   // user -> last answer actually given
+	sarPolicy := map[string]string{}   // user -> allow | deny | error (what the stub answers next)
+	sarLast := map[string]string{}     // user -> last answer actually given
 	sarSince := map[string]time.Time{} // user -> when the stub's answer for the user last changed
 	sarUser := func(ns, sa string) string { return "system:serviceaccount:" + ns + ":" + sa }
 	modifier := func(c kubelib.Client) {
@@ -86,7 +89,22 @@ func runC11(t *testing.T, r *engine.Run) {
 		objs = append(objs, mkSecret(ns, "s1", 0), mkSecret(ns, "s2", 0), mkSecret(ns, "s1-cacert", 0))
 		objs = append(objs, &corev1.ConfigMap{ObjectMeta: metav1.ObjectMeta{Name: "cm1", Namespace: ns}, Data: map[string]string{"ca.crt": "CACM " + ns}})
 	}
-	inst := newWisInstance(t, "main", wisOpts{debounceAfter: 10 * time.Millisecond, debounceMax: 50 * time.Millisecond, kubeObjects: objs, kubeModifier: modifier})
+	// Gateway stratum: in every namespace a Gateway selects the routers and names secret s1 of its own namespace in
+	// credentialName. Being referenced by a Gateway is not an authorisation: a kubernetes:// secret still needs the
+	// SubjectAccessReview of the requester (only kubernetes-gateway:// references are granted by reference).
+	var gwCfgs []config.Config
+	if tp.Bool(1, 2, "gateways") {
+		for _, ns := range []string{"a", "b", "istio-system"} {
+			gwCfgs = append(gwCfgs, config.Config{
+				Meta: config.Meta{GroupVersionKind: gvk.Gateway, Name: "gw", Namespace: ns, CreationTimestamp: wlT0},
+				Spec: &networking.Gateway{Selector: map[string]string{"istio": "ingressgateway"}, Servers: []*networking.Server{{
+					Port: &networking.Port{Number: 443, Name: "https", Protocol: "HTTPS"}, Hosts: []string{ns + ".example.com"},
+					Tls: &networking.ServerTLSSettings{Mode: networking.ServerTLSSettings_SIMPLE, CredentialName: "s1"}}}},
+			})
+		}
+		r.Probe("gateways_reference_secrets")
+	}
+	inst := newWisInstance(t, "main", wisOpts{debounceAfter: 10 * time.Millisecond, debounceMax: 50 * time.Millisecond, kubeObjects: objs, kubeModifier: modifier, configs: gwCfgs})
 	defer func() {
 		inst.Close()
 		synctest.Wait()
